@@ -7,6 +7,7 @@ import XzVerif.Proofs.XzW
 import XzVerif.Proofs.HashTable
 import XzVerif.Proofs.BinTree
 import XzVerif.Proofs.GoSrcEnc
+import XzVerif.Proofs.GoSrcTreeEnc
 /-
   C02 — Everything the xz writer emits is a valid .xz file for other implementations.
 
@@ -199,6 +200,43 @@ theorem C02_source_context_addresses (s : GoSrc.T_state) (prev : BitVec 8) (head
       = Lzma.litState s.Properties.LC.toNat s.Properties.LP.toNat head.toNat prev.toNat :=
   ⟨(GoSrcP.states_spec s head pb hpb hm hs).2.1, (GoSrcP.states_spec s head pb hpb hm hs).2.2,
    GoSrcP.litState_spec s prev head hlc hlp⟩
+
+/-- lzma/treecodecs.go and directcodec.go from the source: `treeCodec.Encode`, `treeReverseCodec.Encode`,
+    `directCodec.Encode` (loops over the bits, node index `m = m<<1 | b`, Go's slice bounds check) run the PATHS
+    `treeEnc` / `rtreeEnc` / `directEnc` of Codec/Lzma.lean through the Nat-level encoder, with the byte limit; the
+    probability slice stays the model's table segment; no index panic. -/
+theorem C02_source_tree_encoders (fuel : Nat) (g : GoSrc.T_rangeEncoder) (e : Rc.Enc) (L : Nat) (v : BitVec 32)
+    (tbl : Tbl) (base bits : Nat)
+    (rel : GoSrcP.EncRel g e L) (rest : e.Rest) (htbl : tbl.ok) (hb1 : 1 ≤ bits) (hb2 : bits ≤ 32)
+    (hcl : e.cacheLen + 80 < 2 ^ 62) (hL : L < 2 ^ 63) (hfuel : e.cacheLen + 80 ≤ fuel) :
+    (∀ tc : GoSrc.T_treeCodec, tc.probTree.bits.toNat = bits → GoSrcP.TreeRel tc.probTree.probs tbl base (2 ^ bits) →
+      match GoSrcP.encPathL L tbl e (treeEnc base bits v.toNat) with
+      | none => ∃ tc' g', GoSrc.treeCodec_Encode fuel tc g v = Go.Res.ok (Go.Err.named "ErrLimit", tc', g')
+      | some (tbl', e') =>
+        ∃ tc' g', GoSrc.treeCodec_Encode fuel tc g v = Go.Res.ok (Go.Err.nil, tc', g')
+          ∧ GoSrcP.EncRel g' e' L ∧ e'.Rest ∧ tbl'.ok ∧ e'.cacheLen ≤ e.cacheLen + bits
+          ∧ tc'.probTree.bits = tc.probTree.bits ∧ GoSrcP.TreeRel tc'.probTree.probs tbl' base (2 ^ bits)) ∧
+    (∀ tc : GoSrc.T_treeReverseCodec, tc.probTree.bits.toNat = bits → GoSrcP.TreeRel tc.probTree.probs tbl base (2 ^ bits) →
+      match GoSrcP.encPathL L tbl e (rtreeEnc base bits v.toNat) with
+      | none => ∃ tc' g', GoSrc.treeReverseCodec_Encode fuel tc v g = Go.Res.ok (Go.Err.named "ErrLimit", tc', g')
+      | some (tbl', e') =>
+        ∃ tc' g', GoSrc.treeReverseCodec_Encode fuel tc v g = Go.Res.ok (Go.Err.nil, tc', g')
+          ∧ GoSrcP.EncRel g' e' L ∧ e'.Rest ∧ tbl'.ok ∧ e'.cacheLen ≤ e.cacheLen + bits
+          ∧ tc'.probTree.bits = tc.probTree.bits ∧ GoSrcP.TreeRel tc'.probTree.probs tbl' base (2 ^ bits)) ∧
+    (∀ dc : BitVec 8, dc.toNat ≤ 32 →
+      match GoSrcP.encPathL L tbl e (directEnc dc.toNat v.toNat) with
+      | none => ∃ g', GoSrc.directCodec_Encode fuel dc g v = Go.Res.ok (Go.Err.named "ErrLimit", g')
+      | some (tbl', e') =>
+        ∃ g', GoSrc.directCodec_Encode fuel dc g v = Go.Res.ok (Go.Err.nil, g')
+          ∧ tbl' = tbl ∧ GoSrcP.EncRel g' e' L ∧ e'.Rest ∧ e'.cacheLen ≤ e.cacheLen + dc.toNat) :=
+  ⟨fun tc hb tr => GoSrcP.treeCodec_Encode_refines fuel tc g e L v tbl base bits rel rest htbl hb1 hb2 hb tr hcl hL hfuel,
+   fun tc hb tr => GoSrcP.treeReverseCodec_Encode_refines fuel tc g e L v tbl base bits rel rest htbl hb1 hb2 hb tr hcl hL hfuel,
+   fun dc hdc => GoSrcP.directCodec_Encode_refines fuel dc g e L v tbl rel rest hdc hcl hL hfuel⟩
+
+/-- the checked path is the codec's path whenever the limit is not hit (`encPath` of Codec/LzmaDec.lean) -/
+theorem C02_source_checked_path (L : Nat) (t : Tbl) (e : Rc.Enc) (π : Path) (t' : Tbl) (e' : Rc.Enc)
+    (h : GoSrcP.encPathL L t e π = some (t', e')) : encPath t e π = (t', e') :=
+  GoSrcP.encPathL_eq_encPath L t e π t' e' h
 
 /-- premises satisfiable: the freshly built encoder with the chunk writer's limit meets every hypothesis -/
 example : GoSrcP.EncRel (GoSrcP.encInit 65536#64) Rc.Enc.init 65536 ∧ Rc.Enc.init.Rest ∧ Rc.POk (1024#16).toNat ∧
